@@ -142,3 +142,183 @@ pub fn gen_parent(ctx: &mut Ctx, k: usize) -> Option<FCase> {
     trait_set(&mut it, true);
     Some(FCase { item: it, tags })
 }
+
+/// `#[o2o(allow_unknown)]` hosts: a bare attribute whose name collides with an o2o instruction of the other level is
+/// silenced by allow_unknown wherever the valid instructions sit and however they are spelled (C13)
+pub fn gen_allow_unknown(ctx: &mut Ctx) -> Option<FCase> {
+    let is_enum = ctx.flag();
+    let type_collide = ["parent(X)", "child(x)", "ghost(x: {1})", "literal(1)", "type_hint(as ())", "as_type(i64)", "repeat()", "serde(rename = \"x\")"];
+    let member_collide = ["where_clause(A: B)", "children()", "child_parents(p: P)", "serde(skip)"];
+    let mut tags = vec![format!("host={}", if is_enum { "enum" } else { "struct" }), "names=allow-unknown".to_string()];
+    let mut attrs = vec![Instr::new("map", None, "T")];
+    if ctx.flag() {
+        attrs.push(Instr::new(if is_enum { "from" } else { "into_existing" }, None, "U"));
+    }
+    if ctx.flag() {
+        attrs.push(Instr::new("where_clause", None, "T: Clone"));
+    }
+    // colliding bare attribute at type level
+    let tc = ctx.choose(type_collide.len() + 1);
+    if tc > 0 {
+        let txt = type_collide[tc - 1];
+        let (n, b) = txt.split_once('(').unwrap();
+        let mut i = Instr::new(n, None, b.strip_suffix(')').unwrap());
+        i.form = crate::item::Form::Bare;
+        i.fixed = true;
+        let pos = ctx.choose(attrs.len() + 1);
+        attrs.insert(pos, i);
+        tags.push(format!("type-collision={}", n));
+    }
+    // allow_unknown: absent | at any position
+    let au = ctx.choose(attrs.len() + 2);
+    if au > 0 {
+        let mut i = Instr::word("allow_unknown");
+        i.form = crate::item::Form::O2o;
+        attrs.insert(au - 1, i);
+        tags.push(format!("allow_unknown@{}", au - 1));
+    }
+    let mc = ctx.choose(member_collide.len() + 1);
+    let mut mattrs = vec![Instr::new("map", None, if is_enum { "X" } else { "x" })];
+    if mc > 0 {
+        let txt = member_collide[mc - 1];
+        let (n, b) = txt.split_once('(').unwrap();
+        let mut i = Instr::new(n, None, b.strip_suffix(')').unwrap());
+        i.form = crate::item::Form::Bare;
+        i.fixed = true;
+        if ctx.flag() {
+            mattrs.insert(0, i);
+        } else {
+            mattrs.push(i);
+        }
+        tags.push(format!("member-collision={}", n));
+    }
+    let mut it = if is_enum {
+        Item::new_enum("S", vec![Variant { attrs: mattrs, name: "A".into(), shape: Shape::Unit, fields: vec![] }, Variant { attrs: vec![], name: "B".into(), shape: Shape::Unit, fields: vec![] }])
+    } else {
+        Item::new_struct("S", Shape::Named, vec![Field { attrs: mattrs, name: Some("a".into()), ty: "i32".into() }, Field::named("b", "i32")])
+    };
+    it.attrs = attrs;
+    Some(FCase { item: it, tags })
+}
+
+/// the C15 misuse injections (one fault) as corpus inputs: invalid inputs must respell / expand consistently too
+pub fn gen_faulty(ctx: &mut Ctx) -> Option<FCase> {
+    let c = crate::faults::gen(ctx, 1)?;
+    Some(FCase { item: c.item, tags: c.tags })
+}
+
+/// C06: every instruction family in every dedication pattern - default, dedicated to T, dedicated to U, in any
+/// combination on the same member / type (two counterparts, all kinds)
+pub fn gen_dedication(ctx: &mut Ctx) -> Option<FCase> {
+    let is_enum = ctx.flag();
+    let mut tags = vec![format!("host={}", if is_enum { "enum" } else { "struct" }), "two-counterparts".to_string(), "names=dedication".to_string()];
+    let slots: [Option<&str>; 3] = [None, Some("T"), Some("U")];
+    let mut type_attrs: Vec<Instr> = vec![];
+    let mut m_attrs: Vec<Instr> = vec![];
+    let mut m_ty = "i32";
+    let mut uses_child = false;
+    if !is_enum {
+        // families: (tag, forms) ; form text uses {d} for a per-slot discriminator
+        let fams: [(&str, &[&str]); 8] = [
+            ("map", &["map(x{d})", "map(x{d}, ~ + {n})", "from(y{d})", "into_existing(z{d})"]),
+            ("ghost", &["ghost({ {n} })", "ghost_owned({ {n} })", "ghost_ref({ {n} })"]),
+            ("child", &["child(p)", "child(p.q)"]),
+            ("parent", &["parent", "parent(pa{d}, pb{d})"]),
+            ("as_type", &["as_type(i64)", "as_type(w{d}, i64)"]),
+            ("where_clause", &["where_clause(P{d}: Clone)"]),
+            ("ghosts", &["ghosts(g{d}: { {n} })", "ghosts_owned(g{d}: { {n} })"]),
+            ("child_parents", &["child_parents(p: P{d}, p.q: Q{d})"]),
+        ];
+        let mut n = 0;
+        for (fi, (fam, forms)) in fams.iter().enumerate() {
+            for (si, ded) in slots.iter().enumerate() {
+                let c = ctx.choose(forms.len() + 1);
+                if c == 0 {
+                    continue;
+                }
+                n += 1;
+                let txt = forms[c - 1].replace("{d}", &si.to_string()).replace("{n}", &(10 * fi + si + 1).to_string());
+                let (name, body, parens) = match txt.find('(') {
+                    Some(i) => (txt[..i].to_string(), txt[i + 1..txt.len() - 1].to_string(), true),
+                    None => (txt.clone(), String::new(), false),
+                };
+                let mut ins = Instr::new(&name, *ded, &body);
+                if !parens && ded.is_none() {
+                    ins.parens = false;
+                }
+                tags.push(format!("{}:{}={}", fam, ded.unwrap_or("default"), c));
+                match *fam {
+                    "where_clause" | "ghosts" | "child_parents" => type_attrs.push(ins),
+                    _ => {
+                        if *fam == "parent" {
+                            m_ty = "P";
+                        }
+                        if *fam == "child" {
+                            uses_child = true;
+                        }
+                        m_attrs.push(ins);
+                    }
+                }
+            }
+        }
+        if n == 0 {
+            return ctx.reject();
+        }
+        if uses_child && !type_attrs.iter().any(|a| a.name == "child_parents" && a.ded.is_none()) {
+            type_attrs.push(Instr::new("child_parents", None, "p: P, p.q: Q"));
+        }
+        let mut it = Item::new_struct("S", Shape::Named, vec![Field { attrs: m_attrs, name: Some("m".into()), ty: m_ty.into() }, Field::named("b", "i32")]);
+        for cp in ["T", "U"] {
+            it.attrs.push(Instr::new("map", None, cp));
+            it.attrs.push(Instr::new("into_existing", None, cp));
+        }
+        it.attrs.extend(type_attrs);
+        Some(FCase { item: it, tags })
+    } else {
+        let fams: [(&str, &[&str]); 6] = [
+            ("vmap", &["map(X{d})", "from(Y{d})", "into(Z{d})"]),
+            ("vghost", &["ghost({ DST::G{d} })", "ghost_owned({ DST::G{d} })"]),
+            ("type_hint", &["type_hint(as ())", "type_hint(as {})", "type_hint(as Unit)"]),
+            ("literal", &["literal({n})"]),
+            ("pattern", &["pattern({n}..=9{n})"]),
+            ("where_clause", &["where_clause(P{d}: Clone)"]),
+        ];
+        let mut n = 0;
+        for (fi, (fam, forms)) in fams.iter().enumerate() {
+            for (si, ded) in slots.iter().enumerate() {
+                let c = ctx.choose(forms.len() + 1);
+                if c == 0 {
+                    continue;
+                }
+                n += 1;
+                let txt = forms[c - 1].replace("{d}", &si.to_string()).replace("{n}", &(10 * fi + si + 1).to_string()).replace("DST", ded.unwrap_or("T"));
+                let i = txt.find('(').unwrap();
+                let ins = Instr::new(&txt[..i], *ded, &txt[i + 1..txt.len() - 1]);
+                tags.push(format!("{}:{}={}", fam, ded.unwrap_or("default"), c));
+                if *fam == "where_clause" {
+                    type_attrs.push(ins);
+                } else {
+                    m_attrs.push(ins);
+                }
+            }
+        }
+        if n == 0 {
+            return ctx.reject();
+        }
+        // enum-level ghosts family
+        for (si, ded) in slots.iter().enumerate() {
+            if ctx.flag() {
+                type_attrs.push(Instr::new("ghosts", *ded, &format!("Y{}: {{ S::B }}", si)));
+                tags.push(format!("eghosts:{}", ded.unwrap_or("default")));
+            }
+        }
+        let payload = ctx.flag();
+        let va = Variant { attrs: m_attrs, name: "A".into(), shape: if payload { Shape::Tuple } else { Shape::Unit }, fields: if payload { vec![Field::pos("i32")] } else { vec![] } };
+        let mut it = Item::new_enum("S", vec![va, Variant { attrs: vec![], name: "B".into(), shape: Shape::Unit, fields: vec![] }]);
+        for cp in ["T", "U"] {
+            it.attrs.push(Instr::new("map", None, &format!("{}| _ => todo!()", cp)));
+        }
+        it.attrs.extend(type_attrs);
+        Some(FCase { item: it, tags })
+    }
+}
